@@ -14,7 +14,10 @@ LEVEL = 'model_checking'
 RULE = ('For each thread program (P1 two queued writes || one forced write, '
         'then join and disconnect; P2 queued+forced || two queued || '
         'concurrent disconnect; P3 two queued || disconnect(immediate); '
-        'P4 three writers one op each, then disconnect) under {plain, '
+        'P4 three writers one op each, then disconnect; after P3 the same '
+        'object connects again and must not send leftovers; plus, on the '
+        'canonical schedule, n queued packets then disconnect for n around '
+        'the 300-packet write batch) under {plain, '
         'compression with a threshold that compresses some packets, '
         'encryption}: all schedules with at most 2 (quick) / 3 (thorough) '
         'preemptions inside the window that starts when the play state is '
@@ -66,6 +69,15 @@ def body(W, prog, mode):
     W.settle()
     srv = W.servers[-1]
     if srv.state != 'play' or type(conn.reactor).__name__ != 'PlayingReactor':
+        if srv.errors:
+            # single-threaded set-up already puts malformed frames on the
+            # wire: that is this property's business, not a tool problem
+            return {'outcome': ('setup', tuple(srv.errors[:1])),
+                    'violations': [(
+                        'torn-or-malformed-frame',
+                        'already during the single-threaded login the server '
+                        'could not deframe the client byte stream: %s'
+                        % srv.errors[:2])]}
         raise ToolError('set-up did not reach play: %r %r %r'
                         % (srv.state, srv.errors, errs))
     base = len(S.log)
@@ -117,7 +129,31 @@ def body(W, prog, mode):
     for s in W.servers:
         s.close()
     W.settle()
-    return judge(W, S, conn, srv, prog, mode, results, errs, base)
+    out = judge(W, S, conn, srv, prog, mode, results, errs, base)
+    if prog == 'P3' and not out['violations'] and not S.live():
+        # 'an immediate disconnect sends nothing further' - not on the next
+        # connection of the same object either
+        n0 = len(W.servers)
+        try:
+            conn.connect()
+            W.settle()
+        except Exception as e:
+            out['violations'].append(('reconnect-failed', 'connect() after '
+                                      'the immediate disconnect raised %s: '
+                                      '%s' % (type(e).__name__, e)))
+        else:
+            srv2 = W.servers[-1]
+            stale = [r for r in srv2.play_rx if r[0] == 'chat']
+            if len(W.servers) == n0 or srv2.errors or stale or \
+                    srv2.state != 'play':
+                out['violations'].append((
+                    'stale-packets-after-immediate-disconnect',
+                    'on the next connection of the same object the server '
+                    'saw errors %r / chat frames %r (state %s): packets left '
+                    'over from before disconnect(immediate=True) were sent'
+                    % (srv2.errors[:2], [c[1][:4] for c in stale],
+                       srv2.state)))
+    return out
 
 
 def judge(W, S, conn, srv, prog, mode, results, errs, base):
@@ -223,6 +259,62 @@ def judge(W, S, conn, srv, prog, mode, results, errs, base):
     return {'outcome': outcome, 'violations': viol}
 
 
+def bulk_body(W, n, mode):
+    """n queued packets, then a non-immediate disconnect: everything queued
+    before it is sent, in order, whatever the write-batch limit."""
+    S = W.S
+    login = [('compress', 64)] if mode == 'compress' else []
+    W.serve(login=login + [('success',)])
+    errs = []
+    conn = W.connection(allowed_versions={VERSION},
+                        handle_exception=lambda e, i: errs.append(
+                            type(e).__name__))
+    from minecraft.networking.packets import serverbound
+    conn.connect()
+    W.settle()
+    srv = W.servers[-1]
+    msgs = ['m%d' % i + 'z' * (i % 90) for i in range(n)]
+    for m in msgs:
+        conn.write_packet(serverbound.play.ChatPacket(message=m))
+    conn.disconnect()
+    W.settle()
+    for s in W.servers:
+        s.close()
+    W.settle()
+    got = [r[1] for r in srv.play_rx if r[0] == 'chat']
+    viol = []
+    if srv.errors:
+        viol.append(('torn-or-malformed-frame', 'server errors %r'
+                     % srv.errors[:2]))
+    if got != msgs:
+        viol.append(('bulk-flush', '%d packets were queued before a '
+                     'non-immediate disconnect(); the server received %d '
+                     '(first difference at index %d)'
+                     % (n, len(got), next((i for i, (a, b) in enumerate(
+                         zip(got, msgs)) if a != b), min(len(got),
+                                                         len(msgs))))))
+    if S.live():
+        viol.append(('thread-never-ends', 'threads alive: %r' % S.live()))
+    return {'outcome': (len(got), tuple(sorted(set(errs)))),
+            'violations': viol}
+
+
+def w_bulk(ctx, task):
+    n, mode = task
+    x = harness.run(lambda W: bulk_body(W, n, mode), horizon=200000)
+    ctx.count()
+    ctx.traces += 1
+    ctx.transitions += x.steps
+    res = x.result or {}
+    viol = list(res.get('violations', ()))
+    if x.failure is not None:
+        viol.append((x.failure[0], '%s: %s' % x.failure))
+    ctx.outcome('bulk %s' % (res.get('outcome'),))
+    for key, what in viol:
+        ctx.violation('bulk/%s n=%d %s' % (mode, n, key), what,
+                      {'bulk': n, 'mode': mode})
+
+
 def factory(params):
     prog, mode = params['prog'], params['mode']
 
@@ -252,6 +344,10 @@ def run(ctx):
         total_pre = _run(ctx, ex, plan)
     finally:
         ex.close()
+    # canonical schedule, sizes around the 300-packet write batch
+    sizes = [1, 50, 299, 300, 301, 350] + ([600, 601, 950]
+                                           if ctx.thorough else [])
+    ctx.pmap(w_bulk, [(n, m) for n in sizes for m in ('plain', 'compress')])
     ctx.extra['executions_with_preemption'] = total_pre
     ctx.sample({'program': 'P1', 'threads': PROGRAMS['P1'][0],
                 'then': PROGRAMS['P1'][1], 'mode': 'plain',
@@ -282,6 +378,8 @@ def _run(ctx, ex, plan):
 
 def replay(ctx, case):
     harness.setup()
+    if 'bulk' in case:
+        return w_bulk(ctx, (case['bulk'], case['mode']))
     scenario = factory(case['params'])
     x = scenario(list(case['choices']), None, None, 'replay')
     if getattr(x, 'diverged', False):
